@@ -220,13 +220,28 @@ def drop_pairs_of(case, k):
     return c
 
 
-def shrink(case, rounds=10):
+def drop_features(case, ks):
+    c = case
+    for k in ks:
+        c = drop_pairs_of(drop_feature(c, k), k)
+    return c
+
+
+def size(case):
+    return (len(case["rel"]), len(case["red"]) + len(case["rln"]))
+
+
+def shrink(case, rounds=8):
+    """Greedy: per round try dropping halves / single features / whole pair dictionaries, keep the smallest still failing."""
     cur = case
     for _ in range(rounds):
         cands = []
         keys = [e[0] for e in cur["rel"]]
+        if len(keys) > 3:
+            h = len(keys) // 2
+            cands += [drop_features(cur, keys[:h]), drop_features(cur, keys[h:])]
         if len(keys) > 1:
-            cands += [drop_pairs_of(drop_feature(cur, k), k) for k in keys]
+            cands += [drop_features(cur, [k]) for k in keys]
         ids = sorted({e[0] for e in cur["red"] + cur["rln"]} | {e[1] for e in cur["red"] + cur["rln"]})
         cands += [drop_pairs_of(cur, k) for k in ids if k not in keys]
         if cur["red"]:
@@ -239,14 +254,10 @@ def shrink(case, rounds=10):
             ev = evaluate(cands, pid="C17s")
         except vlib.Broken:
             break
-        nxt = None
-        for c, e in zip(cands, ev):
-            if e["verdict"]:
-                nxt = c
-                break
-        if nxt is None:
+        failing = [c for c, e in zip(cands, ev) if e["verdict"]]
+        if not failing:
             break
-        cur = nxt
+        cur = min(failing, key=size)
     return cur
 
 
@@ -299,7 +310,7 @@ def check(run, replay):
                 same_as_model += 1
             elif e["unique"]:
                 differs_but_unique += 1      # cannot happen when the validator accepted; kept as a cross-check of the harness
-        elif first_bad is None:
+        elif first_bad is None or size(c) < size(first_bad[0]):
             first_bad = (c, e)
     nbad = sum(1 for e in ev if e["verdict"])
     if first_bad is not None:
